@@ -268,6 +268,13 @@ def hyp_run(
         _t()
     except (Violation, _Abort):
         stats.violations.append({"case": canonical(last["case"]), "msg": last["msg"], "clause": last["clause"]})
+    except hypothesis.errors.Flaky:
+        # the violation was observed on real code but did not recur when Hypothesis re-ran the same case: the code under test is
+        # not a pure function of the case (e.g. iteration over a set of objects hashed by address). Still a violation that happened.
+        if "case" not in last:
+            raise
+        stats.violations.append({"case": canonical(last["case"]), "msg": last["msg"] + " [not reproduced on immediate re-run: "
+                                 "outcome depends on address/iteration order]", "clause": last["clause"]})
     except hypothesis.errors.Unsatisfiable as e:  # generator problem: harness error, not a pass
         raise HarnessError(f"generator unsatisfiable: {e}")
 
